@@ -178,6 +178,7 @@ type checkRun struct {
 	wins     map[string]int
 	covers   int
 	coversUnknown int
+	coversDead    int
 	sweepExcluded []string
 	trustedRepo   []string
 }
@@ -313,7 +314,10 @@ func cmdCheck(args []string) int {
 	for _, c := range allCovers {
 		switch c.Result.Status {
 		case "unsat":
-			fmt.Printf("VACUOUS %s: unreachable under the contract's assumptions\n", c.Name)
+			run.coversDead++
+			if engineErr {
+				fmt.Printf("VACUOUS %s: unreachable under the contract's assumptions\n", c.Name)
+			}
 		case "sat":
 			run.covers++
 		default:
@@ -469,6 +473,7 @@ func writeEvidence(run *checkRun, total, discharged, knownHits, violations int, 
 			"trusted_repo_contracts":   run.trustedRepo,
 			"cover_points_reachable":   run.covers,
 			"cover_points_inconclusive": run.coversUnknown,
+			"cover_points_dead_code":    run.coversDead,
 			"contract_files":           run.prog.contracts.Files,
 			"engine_warnings":          warnings,
 		},
@@ -544,7 +549,7 @@ func cmdFunc(args []string) int {
 			fmt.Printf("  cover %-8s %s\n", c.Result.Status, c.Name)
 		}
 		if vac > 0 {
-			fmt.Printf("VACUOUS: %d cover points are unreachable under the assumptions\n", vac)
+			fmt.Printf("VACUOUS: entry or all returns unreachable under the assumptions\n")
 		}
 	}
 	fmt.Printf("%d obligations, %d not discharged; trusted: %v\n", len(res.Obls), bad, res.Trusted)
@@ -703,9 +708,32 @@ func solveCovers(cs []*Cover, timeoutS int) int {
 		}(c)
 	}
 	wg.Wait()
-	vac := 0
+	// vacuous: the entry of a function, or every one of its returns, is unreachable
+	// under its assumptions (a single dead branch is ordinary dead code)
+	type fnCov struct{ returns, deadReturns int; deadEntry bool }
+	byFn := map[string]*fnCov{}
 	for _, c := range cs {
-		if c.Result.Status == "unsat" {
+		fn := c.Name
+		if i := strings.Index(fn, "/cover."); i > 0 {
+			fn = fn[:i]
+		}
+		fc := byFn[fn]
+		if fc == nil {
+			fc = &fnCov{}
+			byFn[fn] = fc
+		}
+		if strings.Contains(c.Name, "/cover.entry") {
+			fc.deadEntry = c.Result.Status == "unsat"
+		} else if strings.Contains(c.Name, "/cover.return") {
+			fc.returns++
+			if c.Result.Status == "unsat" {
+				fc.deadReturns++
+			}
+		}
+	}
+	vac := 0
+	for _, fc := range byFn {
+		if fc.deadEntry || (fc.returns > 0 && fc.deadReturns == fc.returns) {
 			vac++
 		}
 	}
